@@ -192,6 +192,32 @@ func (ex *Exec) closeFacts(asserts []*Term) []*Term {
 			break
 		}
 	}
+	// uninterpreted functions declared to have disjoint ranges (cache key families)
+	if ex.Specs != nil {
+		for _, pr := range ex.Specs.Disjoint {
+			var as, bs []*Term
+			for _, a := range out {
+				a.Walk(func(x *Term) {
+					if x.Op == "app" && x.Name == pr[0] {
+						as = append(as, x)
+					}
+					if x.Op == "app" && x.Name == pr[1] {
+						bs = append(bs, x)
+					}
+				})
+			}
+			seenPair := map[string]bool{}
+			for _, a := range as {
+				for _, b := range bs {
+					k := a.Key() + "#" + b.Key()
+					if !seenPair[k] {
+						seenPair[k] = true
+						out = append(out, Neq(a, b))
+					}
+				}
+			}
+		}
+	}
 	if len(strcs) > 1 {
 		sort.Slice(strcs, func(i, j int) bool { return strcs[i].Name < strcs[j].Name })
 		out = append(out, mk(&Term{Op: "distinct", Args: strcs, Sort: SBool}))
